@@ -28,8 +28,9 @@ CONSTANTS Vs,        \* vocabulary sizes explored
 VARIABLES V, tv, eos, fa, mi, width,   \* the case (fixed per behaviour)
           t,                            \* steps taken
           beam,                         \* path -> numerator (paths over 0..V-1)
+          prevbeam,                     \* the beam before the last Extend (history variable, for export)
           stopped
-vars == <<V, tv, eos, fa, mi, width, t, beam, stopped>>
+vars == <<V, tv, eos, fa, mi, width, t, beam, prevbeam, stopped>>
 
 D == IF V = 2 THEN 4 ELSE 6
 RECURSIVE Code(_)
@@ -53,7 +54,7 @@ Init ==
   /\ eos \in (0..(V - 1)) \cup {NoEos}
   /\ fa \in BOOLEAN
   /\ (eos = NoEos => fa = FALSE)              \* finish_all_paths only matters with an eos
-  /\ t = 0 /\ beam = (<<>> :> 1) /\ stopped = FALSE
+  /\ t = 0 /\ beam = (<<>> :> 1) /\ prevbeam = (<<>> :> 1) /\ stopped = FALSE
 
 \* candidates after one step: finished paths persist unchanged, others are extended by every token
 Cands(bm) == [z \in {y \in DOMAIN bm : Fin(y)} \cup {Append(y, v) : y \in {x \in DOMAIN bm : ~Fin(x)}, v \in 0..(V - 1)} |->
@@ -71,7 +72,7 @@ MayGoOn == \/ eos = NoEos \/ t = 0
 
 Stop == /\ ~stopped /\ (t = mi \/ MayStop)
         /\ stopped' = TRUE
-        /\ UNCHANGED <<V, tv, eos, fa, mi, width, t, beam>>
+        /\ UNCHANGED <<V, tv, eos, fa, mi, width, t, beam, prevbeam>>
 
 Extend ==
   /\ ~stopped /\ t < mi /\ MayGoOn
@@ -86,6 +87,7 @@ Extend ==
      IN \E X \in kSubset(k - Cardinality(must), tied) :
           beam' = [z \in must \cup X |-> c[z]]
   /\ t' = t + 1
+  /\ prevbeam' = beam
   /\ UNCHANGED <<V, tv, eos, fa, mi, width, stopped>>
 
 Next == Extend \/ Stop
@@ -113,10 +115,18 @@ FullSetWhenWide ==
 (* export: every terminal beam (one per tie resolution)                    *)
 (***************************************************************************)
 Emit(rec) == PrintT(<<"VFJ", ToJson(rec)>>)
+\* one Extend transition (for the single-step replay of beam_search_advance)
+ExportStep ==
+  (~stopped /\ t > 0) =>
+    LET ps == SetToSeq(DOMAIN prevbeam)
+        ys == SetToSeq(DOMAIN beam)
+    IN Emit([kind |-> "step", V |-> V, tv |-> tv, eos |-> IF eos = NoEos THEN -1 ELSE eos, width |-> width, t |-> t,
+             prev |-> [i \in 1..Len(ps) |-> [y |-> ps[i], num |-> prevbeam[ps[i]]]],
+             beam |-> [i \in 1..Len(ys) |-> [y |-> ys[i], num |-> beam[ys[i]]]]])
 Export ==
   stopped =>
     LET ys == SetToSeq(DOMAIN beam)
-    IN Emit([V |-> V, tv |-> tv, eos |-> IF eos = NoEos THEN -1 ELSE eos, fa |-> fa, mi |-> mi, width |-> width, t |-> t,
+    IN Emit([kind |-> "final", V |-> V, tv |-> tv, eos |-> IF eos = NoEos THEN -1 ELSE eos, fa |-> fa, mi |-> mi, width |-> width, t |-> t,
              ncomplete |-> Cardinality(Complete),
              beam |-> [i \in 1..Len(ys) |-> [y |-> ys[i], num |-> beam[ys[i]]]]])
 =============================================================================
